@@ -515,7 +515,7 @@ func TestC32_ResponseModeRandom(t *testing.T) {
 }
 
 func TestReplay(t *testing.T) {
-	if ev.ReplayPath() == "" {
+	if ev.ReplayPath() == "" || ev.ReplayPart() == "rpc-cancellation" {
 		t.Skip("no replay requested")
 	}
 	part := ev.ReplayPart()
